@@ -235,7 +235,7 @@ def oracle_c14(ctx, desc, f0, spec, src, out, m, label, factor, case):
                 w = np.maximum(F[i], 0) ** 2
                 if w.sum() > 0:
                     exp_sd[i] = (pos[cols, 1] * w).sum() / w.sum()
-        dd = same(SD, exp_sd, dtype=False, rtol=1e-4, atol=1e-6)
+        dd = same(SD, exp_sd, dtype=False, rtol=1e-4, atol=1e-5 * max(1., float(np.abs(pos[:, 1]).max())))
         if dd:
             V('depths', 'spikes.depths: ' + dd, file='spikes.depths', features=getattr(spec, 'pc_features', None) is not None)
     PT = load('clusters', 'peakToTrough')
